@@ -194,3 +194,61 @@ Proof.
     destruct (mg =? cur); reflexivity.
   - rewrite N.eqb_refl. reflexivity.
 Qed.
+
+(* ---- verify_directory never raises, whatever the interleaving ------------------------------ *)
+From MakoV Require Import Lib.Assoc.
+
+Definition vinv (s : vstate) : Prop :=
+  forall i t, nget i (vthreads s) = Some t ->
+    v_pc t <> VRaised /\ v_tries t <= 1 /\ (1 <= v_tries t -> dir_exists s = true) /\
+    (v_pc t = VMake -> v_tries t = 0).
+
+Lemma vinv_step s i : vinv s -> vinv (vstep s i).
+Proof.
+  intros H. unfold vstep. destruct (nget i (vthreads s)) as [t|] eqn:Ht; [|exact H].
+  destruct (H i t Ht) as [Hr [Hle [Hex Hmk]]].
+  destruct (v_pc t) eqn:Hpc; try exact H.
+  - (* VCheck *)
+    intros j u Hu. cbn [vthreads dir_exists] in *. destruct (N.eq_dec j i) as [->|Hne].
+    + rewrite nget_nset_same in Hu. injection Hu as <-. cbn [v_pc v_tries].
+      destruct (dir_exists s) eqn:Hd.
+      * split; [discriminate|]. split; [exact Hle|]. split; [intros _; reflexivity|discriminate].
+      * split; [discriminate|]. split; [exact Hle|]. split.
+        -- intros H1. specialize (Hex H1). congruence.
+        -- intros _. destruct (N.eq_dec (v_tries t) 0) as [E|E]; [exact E|].
+           assert (H1 : 1 <= v_tries t) by lia. specialize (Hex H1). congruence.
+    + rewrite (nget_nset_other j i _ _ Hne) in Hu. apply (H j u Hu).
+  - (* VMake *)
+    specialize (Hmk eq_refl).
+    destruct (dir_exists s) eqn:Hd.
+    + intros j u Hu. cbn [vthreads dir_exists] in *. destruct (N.eq_dec j i) as [->|Hne].
+      * rewrite nget_nset_same in Hu. injection Hu as <-. cbn [v_pc v_tries]. rewrite Hmk.
+        change (5 <? 0 + 1) with false. repeat split; try discriminate; try lia.
+      * rewrite (nget_nset_other j i _ _ Hne) in Hu. destruct (H j u Hu) as [A [B [C D]]].
+        repeat split; auto.
+    + intros j u Hu. cbn [vthreads dir_exists] in *. destruct (N.eq_dec j i) as [->|Hne].
+      * rewrite nget_nset_same in Hu. injection Hu as <-. cbn [v_pc v_tries]. rewrite Hmk.
+        repeat split; try discriminate; try lia.
+      * rewrite (nget_nset_other j i _ _ Hne) in Hu. destruct (H j u Hu) as [A [B [C D]]].
+        repeat split; auto.
+Qed.
+
+Lemma vinv_run sched : forall s0, vinv s0 -> vinv (vrun s0 sched).
+Proof.
+  unfold vrun. induction sched as [|k r IH]; intros s0 H0; [exact H0|].
+  cbn [fold_left]. apply IH. apply vinv_step. exact H0.
+Qed.
+
+Theorem verify_directory_never_raises ts sched i t :
+  vfresh ts = true ->
+  nget i (vthreads (vrun {| dir_exists := false; vthreads := ts |} sched)) = Some t ->
+  v_pc t <> VRaised.
+Proof.
+  intros Hf Ht.
+  assert (Hinv : vinv (vrun {| dir_exists := false; vthreads := ts |} sched)).
+  { apply vinv_run. intros j u Hu. cbn [vthreads dir_exists] in *. unfold vfresh in Hf. rewrite forallb_forall in Hf.
+    specialize (Hf (j, u) (nget_In j u ts Hu)). cbn [snd] in Hf.
+    destruct (v_pc u) eqn:E; try discriminate. apply N.eqb_eq in Hf.
+    repeat split; try discriminate; try lia. }
+  apply (Hinv i t Ht).
+Qed.
